@@ -57,6 +57,15 @@ def sp_endpoints(spec):
             "slo_redirect": base + "/slo/redirect"}
 
 
+DOCUMENTED_DEFAULTS = {"wrs": True, "was": False, "waors": False, "allow_unsolicited": False}
+
+
+def effective_flags(spec):
+    """The SP options as documented: explicit value, else the documented default (docs/howto/config.rst)."""
+    return {k: (DOCUMENTED_DEFAULTS[k] if spec.get(k, False) is None else bool(spec.get(k, False)))
+            for k in DOCUMENTED_DEFAULTS}
+
+
 def entity_of(spec):
     return idp_entity(spec["name"]) if spec["kind"] == "idp" else sp_entity(spec)
 
@@ -112,13 +121,15 @@ def base_config(spec):
                                           (ep["slo_post"], BINDING_HTTP_POST),
                                           (ep["slo_redirect"], BINDING_HTTP_REDIRECT)],
             },
-            "want_response_signed": bool(spec.get("wrs", False)),
-            "want_assertions_signed": bool(spec.get("was", False)),
-            "want_assertions_or_response_signed": bool(spec.get("waors", False)),
-            "allow_unsolicited": bool(spec.get("allow_unsolicited", False)),
             "authn_requests_signed": bool(spec.get("sign_requests", False)),
             "logout_requests_signed": bool(spec.get("sign_requests", False)),
         }
+        # An option whose spec value is None is left out of the configuration: the documented default applies
+        # (want_response_signed on, the others off) - see effective_flags().
+        for opt, key_ in (("want_response_signed", "wrs"), ("want_assertions_signed", "was"),
+                          ("want_assertions_or_response_signed", "waors"), ("allow_unsolicited", "allow_unsolicited")):
+            if spec.get(key_, False) is not None:
+                svc[opt] = bool(spec.get(key_, False))
         if spec.get("acs2"):
             svc["endpoints"]["assertion_consumer_service"].append((ep["acs_post2"], BINDING_HTTP_POST))
         if spec.get("dest_regex"):
